@@ -688,11 +688,14 @@ def sink_params(fn_item):
 
 
 def _places(node):
-    """canonical texts of all path/field chains inside node"""
+    """canonical texts of the maximal path/field chains inside node"""
     out = set()
 
     def f(n, parents):
         if n.get("k") in ("path", "field") and "by_ref" not in n:
+            par = parents[-1] if parents else None
+            if par is not None and par.get("k") == "field" and par.get("e") is n:
+                return
             out.add(canon(n))
     walk(node, f)
     return out
